@@ -269,6 +269,65 @@ def r174(repo, ctx):
         ctx.check(ok, 'R17.4', HP, fn, f, f'{fn} uses the {"largest" if red.endswith("amax") else "smallest"} phase mobility as reference', f'{fn} does not use {red} over the phase axis as reference mobility')
 
 
+def r176(repo, ctx):
+    """every homogenized mobility that is returned went through the configured post-processing and averaging rule"""
+    from .. import cfg as C
+    fn = 'computeHomogenizationFunction'
+    f = repo.func(HP, fn)
+    rets = [r for r in ast.walk(f) if isinstance(r, ast.Return)]
+    if len(rets) != 1 or not isinstance(rets[0].value, ast.Tuple) or not rets[0].value.elts:
+        ctx.undecided('R17.6', HP, fn, f, 'expected one return of (mobility, chemical potential)')
+        return
+    names = [n.id for n in ast.walk(rets[0].value.elts[0]) if isinstance(n, ast.Name) and n.id != 'np']
+    if len(names) != 1:
+        ctx.undecided('R17.6', HP, fn, rets[0], 'returned mobility array not identified')
+        return
+    R = names[0]
+    g = C.build(f)
+
+    def gen(node, label):
+        a = node.ast
+        out = set()
+        if node.kind == 'stmt' and isinstance(a, (ast.Assign, ast.Expr)):
+            for c in U.calls(a):
+                if U.call_attr(c) == 'postProcessFunction':
+                    out.add('post')
+        if node.kind == 'for' and label == 'iter':
+            out.add('!reset')
+        return out
+    # facts must hold within one iteration: the loop header kills them
+    def gen2(node, label):
+        return gen(node, label) - {'!reset'}
+    IN = C.must_forward(g, gen2)
+    stores = []
+    for node in g.nodes:
+        a = node.ast
+        if node.kind == 'stmt' and isinstance(a, (ast.Assign, ast.AugAssign)):
+            for t in U.flat_targets(a):
+                if isinstance(t, ast.Subscript) and isinstance(t.value, ast.Name) and t.value.id == R:
+                    stores.append((node, a))
+    defs = single_defs(f)
+    n = 0
+    for node, a in stores:
+        n += 1
+        v = inline(a.value, {k: v_ for k, v_ in defs.items() if k not in U.params(f)}) if isinstance(a, ast.Assign) else None
+        is_rule = isinstance(v, ast.Call) and U.call_attr(v) == 'homogenizationFunction'
+        # the post-processing of THIS point: the call must be on every path from the loop header to the store
+        loop = next((l for l in ast.walk(f) if isinstance(l, (ast.For, ast.While)) and any(x is a for x in ast.walk(l))), None)
+        post_ok = False
+        if loop is not None:
+            gl = C.build(loop.body, region=True)
+            INl = C.must_forward(gl, gen2)
+            for nd in gl.nodes:
+                if nd.ast is a:
+                    post_ok = INl.get(nd.id) is not None and 'post' in INl[nd.id]
+        ctx.check(is_rule and post_ok, 'R17.6', HP, fn, a,
+                  'the stored mobility is the configured averaging rule applied after the configured post-processing of the same point',
+                  'a homogenized mobility is stored without passing through the configured post-processing and averaging rule on some path: '
+                  'exclusions / defaults for phases without mobility data are bypassed there', construct=U.src(a)[:120])
+    ctx.floor('R17.6', n, 1)
+
+
 def check(repo, ctx, index, purity):
     ctx.explanation = EXPLANATION
     ctx.assumptions += ['np.sum over axis 0 is treated as an opaque linear operator in the formula comparison', 'ordering of the bounds is numeric and not decided',
@@ -277,3 +336,4 @@ def check(repo, ctx, index, purity):
     r172_r175(repo, ctx, purity)
     r173(repo, ctx, index)
     r174(repo, ctx)
+    r176(repo, ctx)
